@@ -12,7 +12,7 @@ From Mxj Require Import GenProofs.PureG GenProofs.PureG2 GenProofs.PureG3 GenPro
 (* ------------------------------------------------------------------ the translated callees as functions *)
 
 Definition run_ValuesForPath pf (st : gstate) (m : entries) (path : str) (subkeys : list str) : res (list value) :=
-  match fn_ValuesForPath (run_getSubKeyMap pf st) (run_hasSubKeys st) (run_oldValuesForPath pf st) (run_parsePath st)
+  match fn_ValuesForPath (run_oldValuesForPath pf st) (run_getSubKeyMap pf st) (run_hasSubKeys st) (run_parsePath st)
           (run_valuesForArray pf st) st m path subkeys with Ret r => r | _ => Panic end.
 Definition run_ValuesForKey pf (st : gstate) (m : entries) (key : str) (subkeys : list str) : res (list value) :=
   match fn_ValuesForKey (run_getSubKeyMap pf st) (run_hasKey st) st m key subkeys with Ret r => r | _ => Panic end.
@@ -80,7 +80,7 @@ Definition nmj_of (f : str -> res entries) (b : str) : res value :=
   match f b with Ok m => Ok (VMap m) | Err e => Err e | Panic => Panic end.
 
 Theorem new_map_json_reader_code_is_model : forall nmj st S,
-  fn_NewMapJsonReader (run_getJson st) nmj st S
+  fn_NewMapJsonReader nmj (run_getJson st) st S
   = match new_map_json_reader (nmj_of nmj) S with
     | Some (Ok v, S') => Ret (Ok (entries_of v), S')
     | Some (Err e, S') => Ret (Err e, S')
@@ -95,7 +95,7 @@ Proof.
 Qed.
 
 Theorem new_map_json_reader_raw_code_is_model : forall nmj st S,
-  fn_NewMapJsonReaderRaw (run_getJson st) nmj st S
+  fn_NewMapJsonReaderRaw nmj (run_getJson st) st S
   = match new_map_json_reader_raw (nmj_of nmj) S with
     | Some (Ok v, b, S') => Ret ((entries_of v, b, None), S')
     | Some (Err e, b, S') => Ret (([], b, Some e), S')
